@@ -39,6 +39,10 @@ pub struct Case {
     announce: bool,
     /// 0 = normal; 1 = search on a node whose runtime has shut down
     degenerate: u8,
+    /// the search starts this long after bootstrapped() (so that it can overlap the 6 s refresh
+    /// tick or a re-bootstrap)
+    #[serde(default)]
+    start_offset_ms: u16,
     rt_seed: u64,
 }
 
@@ -73,15 +77,16 @@ impl Stage for Ends {
     fn strategy(&self, _t: Tier) -> BoxedStrategy<Case> {
         (
             any::<bool>(),
-            vec(beh(), 0..=8),
+            prop_oneof![4 => vec(beh(), 0..=8), 1 => vec(beh(), 10..=14)],
             vec(beh(), 1..5),
             prop_oneof![4 => Just(0u16), 1 => 1u16..400, 1 => Just(1000u16)],
             any::<u64>(),
             any::<bool>(),
             prop_oneof![12 => Just(0u8), 1 => Just(1u8)],
             any::<u64>(),
+            prop_oneof![2 => Just(0u16), 3 => 0u16..13_000],
         )
-            .prop_map(|(v6, contacts, chain, send_fail_permille, fail_seed, announce, degenerate, rt_seed)| Case { v6, contacts, chain, send_fail_permille, fail_seed, announce, degenerate, rt_seed })
+            .prop_map(|(v6, contacts, chain, send_fail_permille, fail_seed, announce, degenerate, rt_seed, start_offset_ms)| Case { v6, contacts, chain, send_fail_permille, fail_seed, announce, degenerate, start_offset_ms, rt_seed })
             .boxed()
     }
     fn run(&self, c: &Case) -> Outcome {
@@ -202,6 +207,7 @@ impl Stage for Ends {
                 return Outcome::violation("setup-not-bootstrapped", "node did not bootstrap");
             }
             net.settle().await;
+            tokio::time::sleep(Duration::from_millis(c.start_offset_ms as u64)).await;
             let t_search = net.now_ms();
             let mut stream = dht.search(InfoHash::from(H), c.announce);
             let mut yielded: Vec<SocketAddr> = vec![];
@@ -298,7 +304,7 @@ impl Stage for Ends {
         })
     }
     fn rule(&self) -> String {
-        "one real node bootstrapped against 0..8 scripted contacts (so it knows 0..8 good nodes), then a search; each contact and each node it names behaves per script for get_peers: silent, answer after 0..3 s (clustered around 1.5 s: 1480..1520, exactly 1499/1500/1501 ms), KRPC error, duplicate answers; answers name 0..3 fresh ever closer nodes in chains up to 25 deep (<= ~120 endpoints); optionally 0.1..40 % (or all) of the search's own datagrams fail to send; plus the degenerate cases: no good node, and a node whose runtime has been dropped. Oracle (virtual time, eps = 100 ms): close <= first query + 1.5 s x distinct nodes told about + 3 s; nobody answers => close at first query + 3 s; no good node / dead node => closes at once, nothing sent; without send failures: no unanswered query younger than 1.5 s at close, and every first answer arriving < 1.4 s after its query has its values in the stream. Non-trivial: a timeout and an accepted answer in one search, or an answer within 10 ms of the deadline, or a chain >= 3".into()
+        "one real node bootstrapped against 0..8 (20 %: 10..14, so that no re-bootstrap happens and the 6 s refresh tick fires) scripted contacts, then, 0..13 s later, a search; each contact and each node it names behaves per script for get_peers: silent, answer after 0..3 s (clustered around 1.5 s: 1480..1520, exactly 1499/1500/1501 ms), KRPC error, duplicate answers; answers name 0..3 fresh ever closer nodes in chains up to 25 deep (<= ~120 endpoints); optionally 0.1..40 % (or all) of the search's own datagrams fail to send; plus the degenerate cases: no good node, and a node whose runtime has been dropped. Oracle (virtual time, eps = 100 ms): close <= first query + 1.5 s x distinct nodes told about + 3 s; nobody answers => close at first query + 3 s; no good node / dead node => closes at once, nothing sent; without send failures: no unanswered query younger than 1.5 s at close, and every first answer arriving < 1.4 s after its query has its values in the stream. Non-trivial: a timeout and an accepted answer in one search, or an answer within 10 ms of the deadline, or a chain >= 3".into()
     }
     fn sample(&self, c: &Case) -> serde_json::Value {
         serde_json::json!({"contacts": c.contacts.iter().map(|b| format!("{b:?}")).collect::<Vec<_>>(), "chain": c.chain.iter().map(|b| format!("{b:?}")).collect::<Vec<_>>(), "send_fail_permille": c.send_fail_permille, "degenerate": c.degenerate})
